@@ -17,6 +17,12 @@ import dns.namedict
 
 from harness.core import Ctx, VERIF, enc_labels
 
+try:
+    from harness.core import Stalled
+except ImportError:  # older core
+    class Stalled(BaseException):
+        pass
+
 RULE = (
     "cases come from one SplitMix64 state: clusters of related names (a base name and variants: ASCII case swapped "
     "on the whole name / one label / one octet, one octet moved to a neighbour in the pool "
@@ -378,6 +384,8 @@ def outcome(fn, fmt):
     except ValueError:
         return "err ValueError", None
     except BaseException as e:  # foreign
+        if isinstance(e, Stalled):
+            raise
         return "FOREIGN " + type(e).__name__, None
     return "ok " + fmt(v), v
 
